@@ -337,6 +337,10 @@ func stop(s *storage.JSONFileStorage) (crashed bool, err error) {
 
 func run(e *core.Env) {
 	tp := e.Tape
+	if tp.Chance(1, 6) {
+		runFullStack(e)
+		return
+	}
 	e.StartClock()
 	thorough := e.T != nil && strings.Contains(testingTier(), "thorough")
 
@@ -617,7 +621,7 @@ func TestCheck(t *testing.T) {
 	}
 	core.Main(t, &core.Check{
 		ID:             "C18",
-		QuickRuns:      48,
+		QuickRuns:      64,
 		ThoroughRuns:   1600,
 		MinimiseBudget: 60,
 		Run:            run,
